@@ -33,6 +33,7 @@ type Directives struct {
 	Opt               bool   // opt: reply carries an OPT with options
 	NsTTL             int64  // nsttl<N>: TTL of the authority and additional records (-1 = same rule as the answers)
 	Pad               int    // pad<N>: one extra TXT answer with exactly N octets of text (N <= 255): response sizes in 1-byte steps
+	JunkFirst         bool   // junkfirst: stream servers send a complete but undecodable frame right in front of the reply
 	NoQ               bool   // noq: the reply has no question section (QDCOUNT 0), as some servers and middle boxes send it
 	QR0               bool   // qr0: the reply has the QR bit clear (what a gateway that echoes the request, or a captive portal, sends)
 	AA, AD            bool   // aa / ad: the reply has the AA / AD flag set (an authoritative / validating upstream)
@@ -83,6 +84,9 @@ func ParseDirectives(firstLabel string) Directives {
 			continue
 		case "noq":
 			d.NoQ = true
+			continue
+		case "junkfirst":
+			d.JunkFirst = true
 			continue
 		case "aa":
 			d.AA = true
